@@ -33,6 +33,20 @@ import (
 	"verifharness/store"
 )
 
+// countingNode passes everything through to the wrapped node and counts how
+// often the Data field is looked up.
+type countingNode struct {
+	ipld.Node
+	data *int64
+}
+
+func (c countingNode) LookupByString(key string) (ipld.Node, error) {
+	if key == "Data" {
+		atomic.AddInt64(c.data, 1)
+	}
+	return c.Node.LookupByString(key)
+}
+
 // ---- hostile DAG construction ----
 
 type hostile struct {
@@ -963,6 +977,60 @@ func TestC13(t *testing.T) {
 				}
 			})
 		}
+	}
+	// ---- (2b') file nodes with thousands of links to one small dag-pb child and a long Data payload that
+	// fails to decode only at its very end: whatever is examined per link must not be re-done per link ----
+	for _, nl := range []int{r.Pick(3000, 20000)} {
+		nl := nl
+		r.Case(fmt.Sprintf("wide-file-undecodable-data/%d", nl), map[string]any{"links": nl}, func(c *mon.Case) {
+			st := store.New()
+			ft := pb.Data_File
+			child := st.PutBlock(1, cid.DagProtobuf, encodePB(mustMarshal(&pb.Data{Type: &ft, Data: []byte("x"), Filesize: proto.Uint64(1)}), true, nil))
+			// a valid message followed by a field cut short
+			good := mustMarshal(&pb.Data{Type: &ft, Filesize: proto.Uint64(uint64(nl)), Blocksizes: make([]uint64, 2000)})
+			bad := append(append([]byte(nil), good...), 0x38, 0xff)
+			for vi, d := range [][]byte{bad, good} {
+				links := make([]pbLinkSpec, nl)
+				for i := range links {
+					links[i] = pbLinkSpec{Name: strp(""), Tsize: u64p(3), Cid: child}
+				}
+				root := st.PutBlock(1, cid.DagProtobuf, encodePB(d, true, links))
+				exerciseDAG(c, st, root, fmt.Sprintf("wide-file-data%d", vi))
+				// the direct constructor over a substrate that counts how often its Data field is asked
+				// for: a node's metadata is examined a fixed number of times, not once per link
+				ls := st.LinkSystem(true)
+				raw, err := loadRaw(ls, root)
+				if err != nil {
+					continue
+				}
+				var asked int64
+				c.Guard("NewUnixFSFile over a counting substrate", func() {
+					n, err := file.NewUnixFSFile(bg, countingNode{Node: raw, data: &asked}, ls)
+					if err != nil || n == nil {
+						return
+					}
+					lb, ok := n.(largeBytes)
+					if !ok {
+						return
+					}
+					for rep := 0; rep < 3; rep++ {
+						rs, err := lb.AsLargeBytes()
+						if err != nil {
+							return
+						}
+						rs.Seek(0, io.SeekEnd)
+						rs.Seek(int64(nl/2), io.SeekStart)
+						rs.Read(make([]byte, 5))
+					}
+				})
+				c.Count("operations", 1)
+				c.Max("max_data_field_lookups_per_node", atomic.LoadInt64(&asked))
+				if asked > 32 {
+					c.Violation("C13|unbounded-work|metadata-per-link", "a file node with %d links and %d bytes of Data had its Data field looked up %d times during three seek/read rounds: the work grows with links x payload", nl, len(d), asked)
+				}
+			}
+			c.Sig("wide-file-undecodable-data", true)
+		})
 	}
 	// ---- (2c) child shards whose fanout differs from the parent's, short entry names, several links to one child ----
 	for _, pf := range []int{1024, 512, 256, 16} {
